@@ -229,6 +229,91 @@ if applied == 0 or refused == 0:
 ck.notes.append(f'put/delete_durable: applied on {applied} paths, refused (WAL error) on {refused}')
 ck.functions += ['SlabRouter::put_durable', 'SlabRouter::delete_durable']
 
+# ------------------------------------------------------------------ P1: a checkpoint empties the log only after saving the state the log describes
+# SlabRouter::checkpoint on the real TensorWal (file model); save_to_file is a stub that records when it ran and succeeds or
+# fails symbolically.  Pre-states: the log holds 0..2 acknowledged records, written in this session or found on disk by a
+# freshly opened WAL (the situation right after recover()); a snapshot file may or may not exist already.
+ck.declare('P1_checkpoint_saves_before_truncating', 'checkpoint(path), log holding 0..2 acknowledged records appended in this session or inherited from before a restart; snapshot file present or absent; save succeeds or fails',
+           'Ok and the log was not empty => the state was saved (save_to_file ran and succeeded) while the log still held every record, and only then was the log emptied; save error => the log file is untouched')
+
+
+def ov_save(c):
+    f = fs(c.st).get('wal', FileObj())
+    if c.st.branch(z3.Bool('save_ok'), 'save_to_file'):       # stable name: a fresh one would re-fork on every re-execution
+        c.st.notes.append(('save', len(f.data), True))
+        return ok(UNIT, 'Result<(), SnapshotFormatError>')
+    c.st.notes.append(('save', len(f.data), False))
+    return err(Opaque('SnapshotFormatError'), 'Result<(), SnapshotFormatError>')
+
+
+exl.extra_models.update({'SlabRouter::save_to_file': ov_save})
+_saved_exists = exl.extra_models.get('Path::exists')
+def ov_exists(c):
+    from mirsym.models_fs import path_key, m_path_exists
+    if path_key(c.st, c.args[0]) == 'snap':
+        return z3.Bool('snapshot_exists')
+    return m_path_exists(c)
+
+
+exl.extra_models['Path::exists'] = ov_exists
+cp_ok = cp_err = 0
+for nrec in (0, 1, 2):
+    for inherited in (False, True):
+        st = exl.new_state()
+        st.env['codec_len'] = 2
+        st.assume(z3.ULT(z3.BitVec('max_size', 64), z3.BitVecVal(1 << 40, 64)))
+        st.assume(z3.UGT(z3.BitVec('max_size', 64), z3.BitVecVal(1 << 20, 64)))
+        states = [o[0] for o in scl.open(st, 'checkpoint wal') if o[1] is not None]
+        for i in range(nrec):
+            nxt = []
+            for s_ in states:
+                e = s_.fresh('WalEntry', f'pre{i}')
+                nxt += [a[0] for a in scl.append(s_, e, 'checkpoint pre-record') if a[1] is None]
+            states = nxt
+        if inherited:
+            nxt = []
+            for s_ in states:
+                s3 = scl.crash(s_, len(scl.file(s_).data))
+                nxt += [o[0] for o in scl.open(s3, 'checkpoint reopen') if o[1] is not None]
+            states = nxt
+        if not states:
+            ck.inconclusive.append(f'checkpoint: no pre-state for nrec={nrec} inherited={inherited}')
+        for s_ in states:
+            pre_len = len(scl.file(s_).data)
+            if nrec and scl.file(s_).synced != pre_len:
+                continue        # default config syncs every append; unsynced pre-states are not acknowledged
+            walobj = s_.roots['wal'].load(s_)
+            router = Struct('SlabRouter', {Pl.field('SlabRouter', 'wal'): _some(Struct('Mutex', {'data': Cell(val=walobj)}), 'Option<Mutex<TensorWal>>')}, lazy='R')
+            s_.roots['router'] = router
+            res = scl.run(s_, 'SlabRouter::checkpoint', [ref(router), ref(Str(text='snap'))])
+            ck.note_path_problem(res, f'checkpoint nrec={nrec} inherited={inherited}')
+            for r in res:
+                wit = lambda m, nrec=nrec, inherited=inherited, r=r: {'router_op': 'checkpoint', 'records': nrec, 'inherited': inherited,
+                                                                     'snapshot_exists': bool(mval(m, z3.Bool('snapshot_exists')))}
+                if r.status == 'panic':
+                    ck.require(exl, 'P1_checkpoint_saves_before_truncating', r.pc, None, z3.BoolVal(False), wit, lambda m, w: 'checkpoint-panic')
+                    continue
+                if r.status != 'return':
+                    continue
+                saves = [x for x in r.st.notes if x[0] == 'save']
+                fl = scl.file(r.st)
+                if r.retval.variant == 'Ok':
+                    cp_ok += 1
+                    # an empty log describes nothing: skipping the save is then harmless
+                    good = (len(saves) == 1 and saves[0][2] and saves[0][1] == pre_len) or (pre_len == 0 and not saves)
+                    ck.require(exl, 'P1_checkpoint_saves_before_truncating', r.pc, None, z3.BoolVal(bool(good)), wit, lambda m, w: 'log-emptied-without-saving')
+                else:
+                    cp_err += 1
+                    if saves and not saves[0][2]:
+                        ck.require(exl, 'P1_checkpoint_saves_before_truncating', r.pc, None, z3.BoolVal(len(fl.data) == pre_len), wit, lambda m, w: 'log-touched-after-failed-save')
+if cp_ok == 0 or cp_err == 0:
+    ck.inconclusive.append(f'vacuous: checkpoint succeeded on {cp_ok} paths, failed on {cp_err}')
+if _saved_exists is None:
+    del exl.extra_models['Path::exists']
+else:
+    exl.extra_models['Path::exists'] = _saved_exists
+ck.functions += ['SlabRouter::checkpoint', 'TensorWal::truncate']
+
 # ------------------------------------------------------------------ R1: what recovery replays
 # WalRecovery::{from_entries, all_operations} on every sequence of up to RN records drawn from the kinds production code
 # writes (put_durable -> MetadataSet, delete_durable -> MetadataDelete/EmbeddingDelete/EntityRemove, checkpoint ->
@@ -287,6 +372,11 @@ for v in ck.violations:
             v['replayed'] = rep.get('replay1_ok') is False or rep.get('replay1_matches') is False
         else:
             v['replayed'] = rep.get('replay2_ok') is False or rep.get('new_record_recovered') is False or rep.get('replay2_prefix_matches') is False
+    elif w.get('router_op') == 'checkpoint':
+        rep = Replay.call({'op': 'durable_checkpoint', 'records': max(1, w['records']), 'inherited': w['inherited'], 'snapshot_exists': w['snapshot_exists'],
+                           'save_fails': v['key'] == 'log-touched-after-failed-save'})
+        v['native'] = rep
+        v['replayed'] = rep.get('violates')
     elif w.get('router_op'):
         kc = {v_: k_ for k_, v_ in KC.items()}.get(w.get('key_class'), 'Metadata')
         rep = Replay.call({'op': 'durable_op', 'router_op': w['router_op'], 'key_class': kc})
